@@ -485,6 +485,31 @@ func judgeWith(m *Model, r *Result, partial, patch10 bool) (vs []Verdict, patche
 		add("wire-unparseable", "http.ReadResponse: %v; wire starts %s", err, snippet(r.Wire, 0, 80))
 		return vs, false
 	}
+	// the head as it stands on the wire: net/http's reader silently drops a Content-Length that
+	// comes with Transfer-Encoding and merges repeated lines, so these are looked at in the raw
+	// bytes (RFC 7230 section 3.3.2: a sender MUST NOT send Content-Length in a message that
+	// contains Transfer-Encoding; neither field may be generated twice)
+	if i := bytes.Index(wire, []byte("\r\n\r\n")); i >= 0 {
+		nCL, nTE := 0, 0
+		for _, ln := range bytes.Split(wire[:i], []byte("\r\n"))[1:] {
+			if j := bytes.IndexByte(ln, ':'); j > 0 {
+				switch strings.ToLower(string(ln[:j])) {
+				case "content-length":
+					nCL++
+				case "transfer-encoding":
+					nTE++
+				}
+			}
+		}
+		switch {
+		case nCL > 0 && nTE > 0:
+			add("head-content-length-with-transfer-encoding", "the head carries %d Content-Length and %d Transfer-Encoding line(s): %s", nCL, nTE, snippet(wire, i/2, i))
+		case nCL > 1:
+			add("head-content-length-repeated", "the head carries %d Content-Length lines: %s", nCL, snippet(wire, i/2, i))
+		case nTE > 1:
+			add("head-transfer-encoding-repeated", "the head carries %d Transfer-Encoding lines: %s", nTE, snippet(wire, i/2, i))
+		}
+	}
 	resp := d.Resp
 	if resp.StatusCode != m.Status && !(m.Status == 0 && resp.StatusCode == 200) && !(m.StatusAlt != 0 && resp.StatusCode == m.StatusAlt) {
 		want := m.Status
